@@ -521,7 +521,17 @@ func (authType *ClientAuthType) MarshalJSON() ([]byte, error) {
 }
 
 func (authType *ClientAuthType) UnmarshalJSON(b []byte) error {
-	panic("unimplemented")
+	var name string
+	if err := json.Unmarshal(b, &name); err != nil {
+		return err
+	}
+	for value, n := range clientAuthTypeNames {
+		if n == name {
+			*authType = ClientAuthType(value)
+			return nil
+		}
+	}
+	return fmt.Errorf("unknown client auth type: %s", name)
 }
 
 // requiresClientCert reports whether the ClientAuthType requires a client
